@@ -6,8 +6,8 @@ inductive Mode where | N | R | W
 deriving DecidableEq, Repr
 
 /-- `read`/`write` of a tracked field; `call` of a method on a tracked field (`field.Method`);
-    `self` call of a method on the same receiver; `spawn` = `go recv.Method()`. -/
-inductive Kind where | read | write | call | self | spawn
+    `self` call of a method on the same receiver; `spawn` = `go recv.Method()`; `send` = channel send on a tracked field. -/
+inductive Kind where | read | write | call | self | spawn | send
 deriving DecidableEq, Repr
 
 structure Access where
